@@ -862,6 +862,7 @@ impl<'a> Side<'a> {
         }
     }
     /// first token of the statement / element that contains position i (scan back to `;{},`)
+    #[allow(dead_code)]
     fn stmt_start(&self, i: usize) -> usize {
         let mut k = i;
         let mut depth = 0i32;
